@@ -20,7 +20,7 @@ DW_AT = dict(sibling=0x01, location=0x02, name=0x03, ordering=0x09, byte_size=0x
              return_addr=0x2a, start_scope=0x2c, bit_stride=0x2e, upper_bound=0x2f, abstract_origin=0x31, accessibility=0x32,
              address_class=0x33, artificial=0x34, calling_convention=0x36, count=0x37, data_member_location=0x38, decl_column=0x39,
              decl_file=0x3a, decl_line=0x3b, declaration=0x3c, encoding=0x3e, external=0x3f, frame_base=0x40, identifier_case=0x42,
-             specification=0x47, static_link=0x48, type=0x49, use_location=0x4a, virtuality=0x4c, vtable_elem_location=0x4d,
+             segment=0x46, specification=0x47, static_link=0x48, type=0x49, use_location=0x4a, virtuality=0x4c, vtable_elem_location=0x4d,
              allocated=0x4e, associated=0x4f, data_location=0x50, byte_stride=0x51, entry_pc=0x52, ranges=0x55, call_line=0x59,
              decimal_sign=0x5e, endianity=0x65, linkage_name=0x6e, alignment=0x88, defaulted=0x8b, str_offsets_base=0x72, addr_base=0x73,
              rnglists_base=0x74, loclists_base=0x8c, call_column=0x57, call_file=0x58, description=0x5a, decimal_scale=0x5c, small=0x5d,
